@@ -458,11 +458,14 @@ def run(tier, seed):
     run.rule = ("every database unit x magnitudes 10^k*{0.999,1,1000/999} (k=-30..30) x powers 1..3, definitions of every "
                 "unit, base-unit products around each derived-unit regrouping (powers -1,1,2 and near misses), random "
                 "products of up to four base units, conversions with constant/negative/fractional factors, prefixed, plural "
-                "and compound targets, unit lists and durations; non-trivial = distinct (printed unit string, factor, "
+                "and compound targets (constants under powers and roots, sums, mod / bit operators), number-format conversions of "
+                "values with units (bases 2..36, digits, sci, eng, frac), unit lists and durations, `k substance` and "
+                "`<amount> substance` replies; non-trivial = distinct (printed unit string, factor, "
                 "numeral kind) combination whose display was multiplied out against the exact quantity")
     run.assumptions = ["printed unit names are resolved by the independent name-resolution model (C07 checks it against rink)",
                        "temperature-scale pseudo-units are C10's business; pure-constant targets (`10 -> 2`) show no unit and are not generated",
-                       "substance replies are judged by C16 with the same reader"]
+                       "fraction-form numerals are decimal whatever base was requested (as in C05); approximations of float-valued "
+                       "results may sit a relative 1e-12 to either side before truncation"]
     probe = worker_probe()
     reg = get_reg(probe)
     rng = random.Random(seed)
